@@ -68,7 +68,7 @@ def sample_cfg(rng, clean=None):
                     calcArg=rng.choice(["none", "none", "none", "vasp", "qe"]))
         env.update(FS=rng.choice([0, 0, 1, 2]), FC=rng.choice(["none", "none", "full", "compact"]),
                    H5=rng.choice(["none", "none", "full", "compact"]), BORN=rng.random() < 0.35)
-        if rng.random() < 0.3 and name not in ("fe2", "tetloose"):
+        if rng.random() < 0.45 and name not in ("fe2", "tetloose"):
             # crystal structure by argument(s): one or two of the four ways, files in one calculator's format
             ks = ["ucfile", "scfile", "unitcell", "supercell"]
             picked = [rng.choice(ks)]
@@ -78,8 +78,10 @@ def sample_cfg(rng, clean=None):
             for k in picked:
                 cells[k] = True
             both = rng.random() < 0.5
-            args.update(cells=cells, fmt=rng.choice(["vasp", "qe"]), smatArg=both or rng.random() < 0.3,
-                        pmatArg=both or rng.random() < 0.3, calcArg=rng.choice(["none", "vasp", "qe", "qe"]))
+            calc_arg = rng.choice(["none", "vasp", "qe", "qe"])
+            fmt = ("qe" if calc_arg == "qe" else "vasp") if rng.random() < 0.7 else rng.choice(["vasp", "qe"])
+            args.update(cells=cells, fmt=fmt, smatArg=both or rng.random() < 0.3,
+                        pmatArg=both or rng.random() < 0.3, calcArg=calc_arg)
             # structure files hold plain symbols; other sources of forces / force constants only when the
             # cells (and hence the atom counts and primitive atoms) are those of the object
             cell.update(ext=False, masses="std", generic=False)
@@ -393,8 +395,8 @@ ArgsE == {[isCompact |-> TRUE, produceFc |-> TRUE, isNac |-> TRUE, nacArg |-> FA
            cells |-> NoCells, fmt |-> "vasp", smatArg |-> FALSE, pmatArg |-> FALSE, np |-> n] : n \in NpArgAll}
 EnvsE == {[FS |-> 0, FC |-> "none", H5 |-> "none", BORN |-> FALSE]}
 (* run P: the two sensitive cells, default arguments of load() - for the pinned variant of load() *)
-ObjsP == {[cell |-> [Cell0 EXCEPT !.snfS = TRUE, !.fragile = TRUE, !.sid = FALSE], calc |-> "none", ds |-> [type |-> 1, forces |-> TRUE, energies |-> FALSE],
-           fc |-> "none", nac |-> [kind |-> "none", factor |-> FALSE], np |-> [NpObj0 EXCEPT !.snf = a, !.tol = b]] : a \in B, b \in {"default", "loose"}}
+ObjsP == {[cell |-> [Cell0 EXCEPT !.snfS = TRUE, !.fragile = fr, !.sid = FALSE], calc |-> "none", ds |-> [type |-> 1, forces |-> TRUE, energies |-> FALSE],
+           fc |-> "none", nac |-> [kind |-> "none", factor |-> FALSE], np |-> [NpObj0 EXCEPT !.snf = a, !.tol = b]] : a \in B, b \in {"default", "loose"}, fr \in B}
 ArgsP == {[isCompact |-> TRUE, produceFc |-> TRUE, isNac |-> TRUE, nacArg |-> FALSE, bornFile |-> FALSE, fsFile |-> 0, fcFile |-> "none", calcArg |-> "none"] @@ ArgD}
 (* run F: crystal structure by argument(s): every subset of the four ways, file format against calculator *)
 CellsAll == {[ucfile |-> a, scfile |-> b, unitcell |-> c, supercell |-> d] : a \in B, b \in B, c \in B, d \in B}
@@ -847,9 +849,21 @@ ASSUMPTIONS = [
     "Text level: numbers with at most nine significant digits (short decimals / dyadic fractions, 1e-9 .. 1.2e6, both signs, "
     "signed zero); lines with other numbers are judged through error classes (half a unit of the last written decimal + 2 ulp) "
     "in SaveLoadTrace, not character by character.",
-    "Crystal structure by argument: modelled for load(unitcell=...) (the saved file is then not parsed at all, as documented); "
-    "not modelled: supercell=, unitcell_filename=, supercell_filename= (calculator structure files: C17), "
-    "use_SNF_supercell / symprec / is_symmetry (not recorded by save()), pypolymlp, hdf5_settings (NotImplementedError).",
+    "Crystal structure by argument(s): unitcell=, supercell=, unitcell_filename=, supercell_filename= in every combination, "
+    "files in VASP or QE format against calculator= (the reader of the calculator ARGUMENT is used; a mismatch raises); the "
+    "saved file is then not parsed at all (documented).  The calculator file codecs themselves are C17.",
+    "Options that save() does not record (SaveLoad.tla, class 'not persisted'): factor - DECISION: not a violation of C16, the "
+    "property claims the same phonons only 'with that calculator's default unit factor'; the check verifies that an own factor "
+    "changes the reloaded frequencies by exactly default/own and nothing else (ImplPhononScale), and that load(factor=own) "
+    "reproduces them.  store_dense_svecs: no observable effect.  is_symmetry: the persisted fields are reproduced; only force "
+    "constants re-derived from a dataset follow the symmetry setting of load() (compared when the settings agree).  "
+    "use_SNF_supercell and symprec: genuine findings (fixes/c16-snf-supercell-order.md, c16-symmetry-tolerance-not-read.md); "
+    "the specification describes the repaired load(), PinnedLoad = TRUE the pinned one (violations recorded in pinned_load_model).",
+    "Older layouts (YamlCompat.tla): all phonopy yaml fixtures of /repo/test with a unit cell and a supercell matrix (versions "
+    "1.11 ... 2.3x: top-level NAC keys, type-2 dataset before 2.24, type-1 with and without forces/energies) and files of the C16 "
+    "world re-laid-out by the harness ('atoms/position' cells, top-level NAC, v2.23 dataset, natom key); numbers compared with an "
+    "independent PyYAML reading (identical), and the loaded object saved by the current code loads to the same calculation.",
+    "Not modelled: pypolymlp, hdf5_settings (NotImplementedError), phono3py keys.",
 ]
 
 
